@@ -29,7 +29,9 @@ def lattice(tier):
     base = [{}, {"max_cholesky_size": 0}, {"max_cholesky_size": 0, "fast_log_prob": False},
             {"max_cholesky_size": 0, "num_trace_samples": 1}, {"max_cholesky_size": 0, "num_trace_samples": 5},
             {"max_cholesky_size": 0, "min_preconditioning_size": 0, "max_preconditioner_size": 2},
-            {"max_cholesky_size": 0, "skip_logdet_forward": True}]
+            {"max_cholesky_size": 0, "skip_logdet_forward": True},
+            # thresholds between the size of a Kronecker / block component (2, 3) and of the whole operator (6, 9)
+            {"max_cholesky_size": 3}, {"max_cholesky_size": 5}]
     if tier == "thorough":
         base += [{"max_cholesky_size": 0, "max_lanczos_quadrature_iterations": 40}, {"max_cholesky_size": 0, "cg_tolerance": 1e-4},
                  {"max_cholesky_size": 0, "min_preconditioning_size": 0, "max_preconditioner_size": 1, "num_trace_samples": 3},
@@ -90,7 +92,7 @@ def run(case):
     Ainv = torch.linalg.inv(dense)
     ld_ref = torch.logdet(dense)
     heads = R.heads_of(case["term"])
-    base = {"name": name, "head": case["term"][0], "nb": len(opb), "cfg": ",".join(f"{k}={v}" for k, v in sorted(cfgs.items())), "cg_forced": cfgs.get("max_cholesky_size") == 0,
+    base = {"name": name, "head": case["term"][0], "nb": len(opb), "cfg": ",".join(f"{k}={v}" for k, v in sorted(cfgs.items())), "cg_forced": cfgs.get("max_cholesky_size") is not None and cfgs["max_cholesky_size"] < n,
             "skip": bool(cfgs.get("skip_logdet_forward")), "br": "BatchRepeat" in heads}
     subs = []
 
